@@ -343,7 +343,7 @@ func defuse(b []byte) []byte {
 	}
 }
 
-var mutationKinds = []string{"truncate", "flip", "peers-6k+1", "peers-6k-1", "peers6-18k+1", "interval-string", "peers-int", "peers-dict",
+var mutationKinds = []string{"truncate", "flip", "peers-6k+1", "peers-6k-1", "peers6-18k+1", "peers6-any-length", "peers-any-length", "interval-string", "peers-int", "peers-dict",
 	"peers-list-of-junk", "port-string", "port-out-of-range", "port-negative", "ip-not-an-address", "ip-int", "failure-int", "failure-empty", "dup-peers",
 	"unsorted", "trailing-garbage", "deep-nesting", "huge-int-extra", "empty-dict", "top-list", "leading-zero-int", "signed-length", "peer-entry-arity"}
 
@@ -386,6 +386,11 @@ func mutate(t *rapid.T, m *hModel) (kind string, body []byte) {
 		d["peers"] = c[:len(c)-1]
 	case "peers6-18k+1":
 		d["peers6"] = append(compact([]netip.AddrPort{netip.MustParseAddrPort("[2001:db8::1]:6881")}), 1)
+	case "peers6-any-length":
+		// every residue, in particular multiples of 6 that are not multiples of 18
+		d["peers6"] = gen.Fill(uint64(rapid.IntRange(0, 1000).Draw(t, "p6seed")), rapid.SampledFrom([]int{1, 5, 6, 7, 12, 17, 19, 24, 30, 35, 42, 53, 55}).Draw(t, "p6len"))
+	case "peers-any-length":
+		d["peers"] = gen.Fill(uint64(rapid.IntRange(0, 1000).Draw(t, "p4seed")), rapid.SampledFrom([]int{1, 2, 3, 4, 5, 7, 9, 13, 17, 19, 23}).Draw(t, "p4len"))
 	case "interval-string":
 		d["interval"] = "1800"
 	case "peers-int":
